@@ -6,7 +6,7 @@ import re
 import common as C
 
 HEADER = ("From Xdis Require Import Base.Prelude Base.Result Base.LE Model.Magic Model.Load Model.LoadObs Gen.Magics Gen.RefMagics "
-          "Spec.Registry Spec.Header Proofs.HeaderProofs.")
+          "Spec.Registry Spec.Header Proofs.HeaderDefs.")
 IMPL = os.path.join(C.VERIF, "tools/harness/impl_run.py")
 DUMP = os.path.join(C.VERIF, "tools/translate/dump_magics.py")
 
@@ -88,14 +88,14 @@ def validate_spec(r):
              "match sz, sz' with Some a, Some b => a =? b | None, None => true | _, _ => false end && "
              "match hs, hs' with Some a, Some b => a =? b | None, None => true | _, _ => false end && (zlen rest =? restlen) | None => false end")
     bad, errs = C.coq_cases(r.wd, "spec", HEADER, "list Z * list Z * (option Z * option Z * option Z) * Z", check, lits)
-    if errs or bad:
+    if C.spec_problem(r, errs, bad):
         print("MACHINERY-ERROR: header spec disagrees with the real interpreters:", errs, [recs[b] for b in bad])
         raise SystemExit(2)
     r.cov["spec_validation"] = {"files": len(recs), "interpreters": sorted(C.ORACLES), "disagreements": 0}
 
 
 def table_search(r):
-    ok, _ = C.coq_build(["Proofs/HeaderProofs.vo"])
+    ok, _ = C.coq_build(["Proofs/HeaderDefs.vo"])
     if not ok:
         return False
     out, err = C.coq_eval_term(r.wd, "df", HEADER, "decide_failures")
@@ -112,7 +112,7 @@ def run(r):
                      "{0,1,2,3,2^24,2^31+1,256,2^32-1,...,random} x random timestamp/size/hash x truncations and wrong magic tails, model evaluated in Coq; "
                      "non-trivial = the implementation returned a tuple; distinct by input bytes")
     broken = r.generate("magics")
-    ok = False if broken else r.build(extra_targets=['Model/LoadObs.vo'])
+    ok = False if broken else r.build(extra_targets=['Model/LoadObs.vo', 'Proofs/HeaderDefs.vo'])
     if broken or not ok:
         found = False if broken else table_search(r)
         if not found:
